@@ -602,8 +602,8 @@ type hcall struct {
 	K    string     `json:"k"` // "hcall"
 	H    int        `json:"h"`
 	Call sim.Call   `json:"call"`
-	Keep bool       `json:"keep"` // keep the returned document as a new handle
-	H2   int        `json:"h2"`   // Equal: other handle
+	Keep bool       `json:"keep"`          // keep the returned document as a new handle
+	H2   int        `json:"h2"`            // Equal: other handle
 	Nav  []sim.Step `json:"nav,omitempty"` // obtain a handle to the container at this path (from the root) and keep it
 }
 
